@@ -1327,49 +1327,129 @@ def _r20f(chk, repo) -> None:
                 detail="restricted map iterates the map that holds the special codes",
             )
     # the exception list is expanded against that same map (PRS / LXR / TMP must be findable by it)
+    # Accepted spellings of "the names that are globbed": the map itself / its .keys() / .items(); a copy of its keys
+    # (list(m), sorted(m), tuple(m), set(m), [k for k in m]) taken AFTER the special codes went in; any of these through a
+    # local; the variable of a loop or comprehension over any of these (fnmatch.fnmatch(k, pat) for k in m).
+    from ..flow import _comp_binding
+
+    _COPIES = ("list", "tuple", "sorted", "set", "frozenset", "iter", "reversed")
+
+    def globbed_map(e, at, depth=0):
+        """(name, statement where it is read, statements at which a copy of its keys was taken) or None"""
+        copies: List[object] = []
+        while True:
+            if isinstance(e, ast.Call) and isinstance(e.func, ast.Name) and e.func.id in _COPIES and len(e.args) == 1 and not e.keywords:
+                copies.append(at)
+                e = e.args[0]
+            elif isinstance(e, (ast.ListComp, ast.SetComp, ast.GeneratorExp)) and len(e.generators) == 1 and isinstance(e.elt, ast.Name):
+                copies.append(at)
+                e = e.generators[0].iter
+            elif isinstance(e, (ast.Call, ast.Attribute)):
+                e = e.func if isinstance(e, ast.Call) else e.value
+            else:
+                break
+        if not isinstance(e, ast.Name):
+            return None
+        if not cfg.reaching().defs_at(at, e.id):
+            b = _comp_binding(e)
+            if b is not None and depth < 6:
+                r = globbed_map(b[0], at, depth + 1)
+                return None if r is None else (r[0], r[1], r[2] + copies)
+            return None
+        if canon(e.id, at) in filled or depth >= 6:
+            return e.id, at, copies
+        os_ = origins(cfg, e, at)
+        if len(os_) == 1 and os_[0].kind in ("expr", "for") and isinstance(os_[0].expr, ast.AST) and os_[0].stmt is not None and (os_[0].kind == "for" or not isinstance(os_[0].expr, ast.Name)):
+            r = globbed_map(os_[0].expr, os_[0].stmt, depth + 1)
+            if r is not None:
+                return r[0], r[1], r[2] + copies
+        return e.id, at, copies
+
     n_g = 0
-    for c in [c for c in ast.walk(f) if isinstance(c, ast.Call) and last_attr(c) in ("filter", "fnmatch", "fnmatchcase", "get") and c.args]:
+    for c in [c for c in ast.walk(f) if isinstance(c, ast.Call) and last_attr(c) in ("filter", "fnmatch", "fnmatchcase", "get")]:
         if last_attr(c) == "get":
-            root = c.func.value if isinstance(c.func, ast.Attribute) else None
+            root = c.func.value if isinstance(c.func, ast.Attribute) and c.args else None
         else:
-            root = c.args[0]
-        while isinstance(root, (ast.Call, ast.Attribute)):
-            root = root.func if isinstance(root, ast.Call) else root.value
-        if not isinstance(root, ast.Name) or root.id in ("fnmatch", "re", "regex", "disable_noqa_except"):
+            root = arg_of(c, 0, "names" if last_attr(c) == "filter" else "name")
+        if root is None:
+            continue
+        first = root
+        while isinstance(first, (ast.Call, ast.Attribute)):
+            first = first.func if isinstance(first, ast.Call) else first.value
+        if isinstance(first, ast.Name) and first.id in ("fnmatch", "re", "regex", "disable_noqa_except"):
             continue
         st = cfg.stmt_of(c)
         if st is None:
             continue
-        ds = cfg.reaching().defs_at(st, root.id)
-        if not ds:
+        got = globbed_map(root, st)
+        if got is None:
             continue
+        name, at, copies = got
         n_g += 1
+        ok = canon(name, at) in filled
         chk.require(
-            canon(root.id, st) in filled, "R20f", c,
-            f"the exceptions are expanded against `{root.id}` ({short(c, 50)}), which is not the map the special codes PRS/LXR/TMP were stored into: `disable_noqa_except = PRS` then "
+            ok, "R20f", c,
+            f"the exceptions are expanded against `{name}` ({short(c, 50)}), which is not the map the special codes PRS/LXR/TMP were stored into: `disable_noqa_except = PRS` then "
             "selects nothing, the restricted map has an empty entry for PRS and `-- noqa: PRS` no longer hides the parse error it is allowed to hide",
             detail="exception list expanded against the map that holds the special codes",
         )
+        early = [cp for cp in copies if any(cfg.reaches(cp, s_) for s_, nm in stores if canon(nm, s_) in {canon(name, at)})]
+        if ok and copies:
+            chk.require(
+                not early, "R20f", c,
+                f"the exceptions are expanded against a copy of the keys of `{name}` ({short(c, 50)}) taken at line {getattr(early[0], 'lineno', '?') if early else '?'}, before the special codes "
+                "PRS/LXR/TMP are stored: the copy does not hold them, `disable_noqa_except = PRS` selects nothing and `-- noqa: PRS` no longer hides the parse error it is allowed to hide",
+                detail="exception list expanded against a copy of the keys taken after the special codes were stored",
+            )
     chk.count("R20f.exception_expansions", n_g)
     chk.count("R20f.restricted_returns", n)
     chk.floor("R20f.restricted_returns", 1)
 
 
 def _r20h(chk, repo) -> None:
+    """Accepted spellings: text.strip() / .strip(None) / str.strip(text) (whitespace only); a literal character set
+    without glob characters, also through a local; removeprefix / removesuffix (cut a literal, not a set).  The trimming
+    may live in helper functions the anchor calls with an argument (nested, same class, module level, imported): their
+    strip calls are read the same way."""
     f = repo.fn(NOQA, "IgnoreMask._extract_ignore_from_comment")
+    # the anchor and every function of the tree it hands a value to (the comment text travels through them)
+    fns, todo = [f], [(f, 0)]
+    while todo:
+        g, depth = todo.pop()
+        for call in calls_in(g, into_nested=True):
+            if not (call.args or call.keywords) or depth >= 3:
+                continue
+            r = callee(repo, call)
+            if r is not None and isinstance(r[1], FuncNode) and all(r[1] is not h for h in fns):
+                fns.append(r[1])
+                todo.append((r[1], depth + 1))
     n = 0
-    for c in [c for c in ast.walk(f) if isinstance(c, ast.Call) and isinstance(c.func, ast.Attribute) and c.func.attr in ("strip", "lstrip", "rstrip", "removeprefix", "removesuffix")]:
-        n += 1
-        if c.func.attr in ("removeprefix", "removesuffix") or not c.args:
-            continue
-        a = c.args[0]
-        chars = a.value if isinstance(a, ast.Constant) and isinstance(a.value, str) else None
-        chk.require(
-            chars is not None and not (set(chars) & set("*?[]")), "R20h", c,
-            f"the directive text is stripped by the character set {chars!r} ({short(c, 40)}): a glob star at the end of the last rule reference (`/* noqa: AL0* */`) is removed with the comment "
-            "marker, the reference matches no rule and the directive hides nothing",
-            detail="_extract_ignore_from_comment: markers removed by length, not by character set",
-        )
+    for g in fns:
+        shadowed = any(isinstance(x, ast.Name) and x.id == "str" and isinstance(x.ctx, ast.Store) for x in ast.walk(g)) or any(isinstance(x, ast.arg) and x.arg == "str" for x in ast.walk(g))
+        for c in [c for c in ast.walk(g) if isinstance(c, ast.Call) and isinstance(c.func, ast.Attribute) and c.func.attr in ("strip", "lstrip", "rstrip", "removeprefix", "removesuffix")]:
+            n += 1
+            args = list(c.args)
+            if isinstance(c.func.value, ast.Name) and c.func.value.id == "str" and not shadowed and args:
+                args = args[1:]  # str.rstrip(text[, chars]): the first argument is the receiver
+            if c.func.attr in ("removeprefix", "removesuffix") or not args:
+                continue
+            a = args[0]
+            vals = [a]
+            if isinstance(a, ast.Name):
+                h = enclosing_function(c)
+                st = cfg_of(h).stmt_of(c) if h is not None else None
+                os_ = origins(cfg_of(h), a, st) if st is not None else []
+                vals = [o.expr for o in os_] if os_ and all(o.kind == "expr" and not o.path and isinstance(o.expr, ast.AST) for o in os_) else [a]
+            if all(isinstance(v, ast.Constant) and v.value is None for v in vals):
+                continue  # strip(None) is strip()
+            sets = [v.value if isinstance(v, ast.Constant) and isinstance(v.value, str) else None for v in vals]
+            chars = None if any(s is None for s in sets) else "".join(sets)
+            chk.require(
+                chars is not None and not (set(chars) & set("*?[]")), "R20h", c,
+                f"the directive text is stripped by the character set {chars!r} ({short(c, 40)}): a glob star at the end of the last rule reference (`/* noqa: AL0* */`) is removed with the comment "
+                "marker, the reference matches no rule and the directive hides nothing",
+                detail="_extract_ignore_from_comment: markers removed by length, not by character set",
+            )
     chk.count("R20h.strip_calls", n)
     chk.floor("R20h.strip_calls", 1)
 
@@ -1428,6 +1508,21 @@ def run(chk) -> None:
 from ..selftest import Variant  # noqa: E402
 
 CMDS = "src/sqlfluff/cli/commands.py"
+
+# anchor texts shared by the R20h / R20f spellings below
+_R20H_HEAD = (
+    "    @classmethod\n    def _extract_ignore_from_comment(\n        cls,\n        comment: RawSegment,\n        reference_map: dict[str, set[str]],\n"
+    "    ) -> Union[NoQaDirective, SQLParseError, None]:\n        \"\"\"Extract ignore mask entries from a comment segment.\"\"\"\n        # Also trim any whitespace\n"
+)
+_R20H_BETWEEN = (
+    "        # If we have leading or trailing block comment markers, also strip them.\n        # NOTE: We need to strip block comment markers from the start\n"
+    "        # to ensure that noqa directives in the following form are followed:\n        # /* noqa: disable=all */\n"
+)
+_R20H_CUT = (
+    '        if comment_content.endswith("*/"):\n            comment_content = comment_content[:-2].rstrip()\n'
+    '        if comment_content.startswith("/*"):\n            comment_content = comment_content[2:].lstrip()\n'
+)
+_R20F_LOOP = "        for r in unexpanded_rules:\n            for x in fnmatch.filter(output_map.keys(), r):\n                noqa_set |= output_map.get(x, set())\n"
 
 VARIANTS: List[Variant] = [
     Variant(
@@ -1733,6 +1828,119 @@ VARIANTS: List[Variant] = [
         "            violations = [v for v in violations if isinstance(v, types)]\n",
         "            violations = list(filter(lambda v: isinstance(v, types), violations))\n",
         "QUIET", None, "a filter step spelled list(filter(..))",
+    ),
+    # ---- behaviour-preserving refactors: must stay quiet (R20h / R20f exception expansion) ---------
+    Variant(
+        "quiet-r20h-markers-through-locals", NOQA, _R20H_CUT,
+        '        close_marker, open_marker = "*/", "/*"\n        if comment_content.endswith(close_marker):\n            comment_content = comment_content[: -len(close_marker)].rstrip()\n'
+        "        if comment_content.startswith(open_marker):\n            comment_content = comment_content[len(open_marker) :].lstrip()\n",
+        "QUIET", None, "R20h: markers kept in locals, cut by their length",
+    ),
+    Variant(
+        "quiet-r20h-markers-cut-with-removesuffix", NOQA, _R20H_CUT,
+        '        comment_content = comment_content.removesuffix("*/").rstrip()\n        comment_content = comment_content.removeprefix("/*").lstrip()\n',
+        "QUIET", None, "R20h: removesuffix / removeprefix cut a literal, not a character set (the text is already stripped, so the unconditional rstrip()/lstrip() is a no-op without a marker)",
+    ),
+    Variant(
+        "quiet-r20h-unbound-str-methods", NOQA, _R20H_CUT,
+        '        if comment_content.endswith("*/"):\n            comment_content = str.rstrip(comment_content[:-2])\n        if comment_content.startswith("/*"):\n            comment_content = str.lstrip(comment_content[2:])\n',
+        "QUIET", None, "R20h: str.rstrip(text) is text.rstrip(): the first argument is the receiver, not a character set",
+    ),
+    Variant(
+        "quiet-r20h-whitespace-strip-with-explicit-none", NOQA, _R20H_CUT,
+        '        if comment_content.endswith("*/"):\n            comment_content = comment_content[:-2].rstrip(None)\n        if comment_content.startswith("/*"):\n            comment_content = comment_content[2:].lstrip(None)\n',
+        "QUIET", None, "R20h: rstrip(None) is rstrip()",
+    ),
+    Variant(
+        "quiet-r20h-markers-cut-by-conditional-expressions", NOQA, _R20H_CUT,
+        '        comment_content = comment_content[:-2].rstrip() if comment_content.endswith("*/") else comment_content\n'
+        '        comment_content = comment_content[2:].lstrip() if comment_content.startswith("/*") else comment_content\n',
+        "QUIET", None, "R20h: if statements as conditional expressions",
+    ),
+    Variant(
+        "quiet-r20h-markers-cut-in-a-nested-helper", NOQA,
+        "        comment_content = comment.raw_trimmed().strip()\n" + _R20H_BETWEEN + _R20H_CUT,
+        "        def _cut_markers(text: str) -> str:\n            text = text.strip()\n            if text.endswith(\"*/\"):\n                text = text[:-2].rstrip()\n            if text.startswith(\"/*\"):\n                text = text[2:].lstrip()\n            return text\n\n"
+        "        comment_content = _cut_markers(comment.raw_trimmed())\n",
+        "QUIET", None, "R20h: the whole trimming in a nested function",
+    ),
+    Variant(
+        "quiet-r20h-markers-cut-in-a-sibling-helper", NOQA,
+        _R20H_HEAD + "        comment_content = comment.raw_trimmed().strip()\n" + _R20H_BETWEEN + _R20H_CUT,
+        "    @staticmethod\n    def _cut_markers(text: str) -> str:\n        \"\"\"Trim whitespace and block comment markers.\"\"\"\n        text = text.strip()\n        if text.endswith(\"*/\"):\n            text = text[:-2].rstrip()\n        if text.startswith(\"/*\"):\n            text = text[2:].lstrip()\n        return text\n\n"
+        + _R20H_HEAD + "        comment_content = cls._cut_markers(comment.raw_trimmed())\n",
+        "QUIET", None, "R20h: the whole trimming in a static method of the class",
+    ),
+    Variant(
+        "quiet-r20f-keys-snapshot-through-a-local", LINTER, _R20F_LOOP,
+        "        known_codes = list(output_map)\n        for r in unexpanded_rules:\n            for x in fnmatch.filter(known_codes, r):\n                noqa_set |= output_map.get(x, set())\n",
+        "QUIET", None, "R20f: the keys are listed once (after the special codes went in) and globbed from a local",
+    ),
+    Variant(
+        "quiet-r20f-keys-view-through-a-local", LINTER, _R20F_LOOP,
+        "        known_codes = output_map.keys()\n        for r in unexpanded_rules:\n            for x in fnmatch.filter(known_codes, r):\n                noqa_set |= output_map.get(x, set())\n",
+        "QUIET", None, "R20f: keys view through a local",
+    ),
+    Variant(
+        "quiet-r20f-filter-as-a-loop-over-the-keys", LINTER, _R20F_LOOP,
+        "        for r in unexpanded_rules:\n            for x in output_map:\n                if fnmatch.fnmatch(x, r):\n                    noqa_set |= output_map[x]\n",
+        "QUIET", None, "R20f: fnmatch.filter(names, pat) is [n for n in names if fnmatch.fnmatch(n, pat)]",
+    ),
+    Variant(
+        "quiet-r20f-filter-as-a-loop-over-the-items", LINTER, _R20F_LOOP,
+        "        for r in unexpanded_rules:\n            for code, expansion in output_map.items():\n                if fnmatch.fnmatch(code, r):\n                    noqa_set |= expansion\n",
+        "QUIET", None, "R20f: same, over items()",
+    ),
+    Variant(
+        "quiet-r20f-filter-called-with-keywords", LINTER, _R20F_LOOP,
+        "        for r in unexpanded_rules:\n            for x in fnmatch.filter(names=output_map.keys(), pat=r):\n                noqa_set |= output_map.get(x, set())\n",
+        "QUIET", None, "R20f: keyword arguments",
+    ),
+    Variant(
+        "quiet-r20f-expansion-as-one-union", LINTER, "        noqa_set = set()\n" + _R20F_LOOP,
+        "        noqa_set = set().union(\n            *(output_map[x] for r in unexpanded_rules for x in fnmatch.filter(list(output_map), r))\n        )\n",
+        "QUIET", None, "R20f: the two loops as one generator, keys listed inline",
+    ),
+    Variant(
+        "quiet-r20f-expansion-in-a-nested-helper", LINTER, _R20F_LOOP,
+        "        def _expand(pattern: str) -> list[str]:\n            return fnmatch.filter(output_map.keys(), pattern)\n\n        for r in unexpanded_rules:\n            for x in _expand(r):\n                noqa_set |= output_map.get(x, set())\n",
+        "QUIET", None, "R20f: the glob in a nested function",
+    ),
+    # ---- breaking twins of the R20h / R20f spellings above ----------------------------------------
+    Variant(
+        "r20h-unbound-str-method-with-a-character-set", NOQA, _R20H_CUT,
+        '        if comment_content.endswith("*/"):\n            comment_content = str.rstrip(comment_content, "*/ ")\n        if comment_content.startswith("/*"):\n            comment_content = str.lstrip(comment_content[2:])\n',
+        "R20h", "_extract_ignore_from_comment", "twin of quiet-r20h-unbound-str-methods: the second argument is the character set",
+    ),
+    Variant(
+        "r20h-character-set-through-a-local", NOQA, _R20H_CUT,
+        '        closing = "*/ "\n        if comment_content.endswith("*/"):\n            comment_content = comment_content.rstrip(closing)\n        if comment_content.startswith("/*"):\n            comment_content = comment_content[2:].lstrip(None)\n',
+        "R20h", "_extract_ignore_from_comment", "twin of quiet-r20h-whitespace-strip-with-explicit-none: a set with the glob star through a local",
+    ),
+    Variant(
+        "r20h-sibling-helper-strips-by-character-set", NOQA,
+        _R20H_HEAD + "        comment_content = comment.raw_trimmed().strip()\n" + _R20H_BETWEEN + _R20H_CUT,
+        "    @staticmethod\n    def _cut_markers(text: str) -> str:\n        \"\"\"Trim whitespace and block comment markers.\"\"\"\n        text = text.strip()\n        if text.endswith(\"*/\"):\n            text = text.rstrip(\"*/ \")\n        if text.startswith(\"/*\"):\n            text = text[2:].lstrip()\n        return text\n\n"
+        + _R20H_HEAD + "        comment_content = cls._cut_markers(comment.raw_trimmed())\n",
+        "R20h", "_extract_ignore_from_comment", "twin of quiet-r20h-markers-cut-in-a-sibling-helper",
+    ),
+    Variant(
+        "r20f-keys-listed-before-the-special-codes", LINTER,
+        "        output_map = reference_map\n        # Add the special rules so they can be excluded for `disable_noqa_except` usage\n        for special_rule in [\"PRS\", \"LXR\", \"TMP\"]:\n            output_map[special_rule] = {special_rule}\n        # Expand glob usage of rules\n        unexpanded_rules = tuple(r.strip() for r in disable_noqa_except.split(\",\"))\n        noqa_set = set()\n" + _R20F_LOOP,
+        "        output_map = reference_map\n        known_codes = list(output_map)\n        for special_rule in [\"PRS\", \"LXR\", \"TMP\"]:\n            output_map[special_rule] = {special_rule}\n        unexpanded_rules = tuple(r.strip() for r in disable_noqa_except.split(\",\"))\n        noqa_set = set()\n        for r in unexpanded_rules:\n            for x in fnmatch.filter(known_codes, r):\n                noqa_set |= output_map.get(x, set())\n",
+        "R20f", "allowed_rule_ref_map", "twin of quiet-r20f-keys-snapshot-through-a-local: the key list is taken before PRS/LXR/TMP go in, `disable_noqa_except = PRS` selects nothing",
+    ),
+    Variant(
+        "r20f-loop-over-the-original-while-codes-are-on-a-copy", LINTER,
+        "        output_map = reference_map\n        # Add the special rules so they can be excluded for `disable_noqa_except` usage\n        for special_rule in [\"PRS\", \"LXR\", \"TMP\"]:\n            output_map[special_rule] = {special_rule}\n        # Expand glob usage of rules\n        unexpanded_rules = tuple(r.strip() for r in disable_noqa_except.split(\",\"))\n        noqa_set = set()\n" + _R20F_LOOP,
+        "        output_map = dict(reference_map)\n        for special_rule in [\"PRS\", \"LXR\", \"TMP\"]:\n            output_map[special_rule] = {special_rule}\n        unexpanded_rules = tuple(r.strip() for r in disable_noqa_except.split(\",\"))\n        noqa_set = set()\n        for r in unexpanded_rules:\n            for code, expansion in reference_map.items():\n                if fnmatch.fnmatch(code, r):\n                    noqa_set |= expansion\n",
+        "R20f", "allowed_rule_ref_map", "twin of quiet-r20f-filter-as-a-loop-over-the-items: the loop walks the original map, the special codes are on the copy",
+    ),
+    Variant(
+        "r20f-keyword-filter-over-the-original-while-codes-are-on-a-copy", LINTER,
+        "        output_map = reference_map\n        # Add the special rules so they can be excluded for `disable_noqa_except` usage\n        for special_rule in [\"PRS\", \"LXR\", \"TMP\"]:\n            output_map[special_rule] = {special_rule}\n        # Expand glob usage of rules\n        unexpanded_rules = tuple(r.strip() for r in disable_noqa_except.split(\",\"))\n        noqa_set = set()\n" + _R20F_LOOP,
+        "        output_map = dict(reference_map)\n        for special_rule in [\"PRS\", \"LXR\", \"TMP\"]:\n            output_map[special_rule] = {special_rule}\n        unexpanded_rules = tuple(r.strip() for r in disable_noqa_except.split(\",\"))\n        noqa_set = set()\n        for r in unexpanded_rules:\n            for x in fnmatch.filter(pat=r, names=sorted(reference_map)):\n                noqa_set |= output_map.get(x, set())\n",
+        "R20f", "allowed_rule_ref_map", "twin of quiet-r20f-filter-called-with-keywords / -expansion-as-one-union: keyword arguments, keys of the original map copied inline",
     ),
     # ---- breaking twins of the quiet spellings above ---------------------------------------------
     Variant(
